@@ -235,6 +235,8 @@ pub fn gen_history(r: &mut Rng, g: &GenCfg) -> History {
         for _ in 0..2 + r.below(3) {
             ops.push(AOp::Av { ci: b, p: IdRef::Latest, payload: PayloadSpec::small(r), cuts: r.next() });
         }
+        // B snapshots at the version before its latest (a walk of one step back through B's chain), then at its latest
+        ops.push(AOp::As { ci: b, v: IdRef::Anc(1, r.uuid()), payload: PayloadSpec::small(r), cuts: r.next() });
         ops.push(AOp::As { ci: b, v: IdRef::Latest, payload: PayloadSpec::small(r), cuts: r.next() });
         ops.push(AOp::Av { ci: a, p: IdRef::ForeignLatest(0, r.uuid()), payload: PayloadSpec::small(r), cuts: r.next() });
         // first at the version BEFORE that base in B's chain (within the window, if the walk back from A's latest did not
@@ -246,6 +248,18 @@ pub fn gen_history(r: &mut Rng, g: &GenCfg) -> History {
         ops.push(AOp::Av { ci: a, p: IdRef::Latest, payload: PayloadSpec::small(r), cuts: r.next() });
         ops.push(AOp::As { ci: a, v: IdRef::Latest, payload: PayloadSpec::small(r), cuts: r.next() });
         ops.push(AOp::Gs { ci: b });
+    }
+    if nc >= 2 && r.chance(g.cross_prefix_pct, 100) {
+        // twins: two clients upload byte-identical segments on identical parents (both start at nil): nothing about
+        // one client's versions may depend on another client having stored the same bytes
+        let (a, b) = (nc - 1, nc - 2);
+        for _ in 0..1 + r.below(3) {
+            let pl = PayloadSpec::small(r);
+            ops.push(AOp::Av { ci: a, p: IdRef::Latest, payload: pl.clone(), cuts: r.next() });
+            ops.push(AOp::Av { ci: b, p: IdRef::Latest, payload: pl, cuts: r.next() });
+        }
+        ops.push(AOp::Walk { ci: a });
+        ops.push(AOp::Walk { ci: b });
     }
     for i in 0..nops {
         let ci = r.below(nc);
